@@ -1,0 +1,161 @@
+//go:build verif
+
+// Hooks for the verification harness in /verif. Compiled only with -tags verif; add-only.
+
+package url
+
+import (
+	"sort"
+
+	"github.com/bits-and-blooms/bitset"
+)
+
+// VerifOptions is a dump of parserOptions in exported form.
+type VerifOptions struct {
+	ReportValidationErrors              bool
+	FailOnValidationError               bool
+	LaxHostParsing                      bool
+	CollapseConsecutiveSlashes          bool
+	AcceptInvalidCodepoints             bool
+	HasPreParseHostFunc                 bool
+	HasPostParseHostFunc                bool
+	PercentEncodeSinglePercentSign      bool
+	AllowSettingPathForNonBaseUrl       bool
+	SkipWindowsDriveLetterNormalization bool
+	SpecialSchemes                      [][2]string
+	SkipTrailingSlashNormalization      bool
+	EncodingOverride                    string
+	PathPercentEncodeSet                *PercentEncodeSet
+	SpecialQueryPercentEncodeSet        *PercentEncodeSet
+	QueryPercentEncodeSet               *PercentEncodeSet
+	SpecialFragmentPercentEncodeSet     *PercentEncodeSet
+	FragmentPercentEncodeSet            *PercentEncodeSet
+	SkipEqualsForEmptySearchParamsValue bool
+	PreParseHostFunc                    func(url *Url, host string) string
+	PostParseHostFunc                   func(url *Url, host string) string
+}
+
+func verifParser(p Parser) *parser {
+	if pp, ok := p.(*parser); ok {
+		return pp
+	}
+	return nil
+}
+
+// VerifOptionsOf returns the options of a Parser created by NewParser (nil otherwise).
+func VerifOptionsOf(p Parser) *VerifOptions {
+	pp := verifParser(p)
+	if pp == nil {
+		return nil
+	}
+	o := pp.opts
+	v := &VerifOptions{
+		ReportValidationErrors:              o.reportValidationErrors,
+		FailOnValidationError:               o.failOnValidationError,
+		LaxHostParsing:                      o.laxHostParsing,
+		CollapseConsecutiveSlashes:          o.collapseConsecutiveSlashes,
+		AcceptInvalidCodepoints:             o.acceptInvalidCodepoints,
+		HasPreParseHostFunc:                 o.preParseHostFunc != nil,
+		HasPostParseHostFunc:                o.postParseHostFunc != nil,
+		PercentEncodeSinglePercentSign:      o.percentEncodeSinglePercentSign,
+		AllowSettingPathForNonBaseUrl:       o.allowSettingPathForNonBaseUrl,
+		SkipWindowsDriveLetterNormalization: o.skipWindowsDriveLetterNormalization,
+		SkipTrailingSlashNormalization:      o.skipTrailingSlashNormalization,
+		PathPercentEncodeSet:                o.pathPercentEncodeSet,
+		SpecialQueryPercentEncodeSet:        o.specialQueryPercentEncodeSet,
+		QueryPercentEncodeSet:               o.queryPercentEncodeSet,
+		SpecialFragmentPercentEncodeSet:     o.specialFragmentPercentEncodeSet,
+		FragmentPercentEncodeSet:            o.fragmentPercentEncodeSet,
+		SkipEqualsForEmptySearchParamsValue: o.skipEqualsForEmptySearchParamsValue,
+		PreParseHostFunc:                    o.preParseHostFunc,
+		PostParseHostFunc:                   o.postParseHostFunc,
+	}
+	if o.encodingOverride != nil {
+		v.EncodingOverride = o.encodingOverride.String()
+	}
+	for k, dp := range o.specialSchemes {
+		v.SpecialSchemes = append(v.SpecialSchemes, [2]string{k, dp})
+	}
+	sort.Slice(v.SpecialSchemes, func(i, j int) bool { return v.SpecialSchemes[i][0] < v.SpecialSchemes[j][0] })
+	return v
+}
+
+// VerifSetParts exposes the two parts of a PercentEncodeSet.
+func VerifSetParts(s *PercentEncodeSet) (int32, *bitset.BitSet) {
+	return s.allBelow, s.bs
+}
+
+// VerifSomeURLCodePoints exposes the unexported table used by isURLCodePoint.
+func VerifSomeURLCodePoints() *bitset.BitSet { return someURLCodePoints }
+
+func VerifIsURLCodePoint(r rune) bool { return isURLCodePoint(r) }
+
+// VerifIdnaRaw is the raw UTS #46 processing used by ToASCII.
+func VerifIdnaRaw(s string) (string, error) { return idnaProfile.ToASCII(s) }
+
+func verifUrl(pp *parser, input string) *Url {
+	return &Url{inputUrl: input, path: &path{}, parser: pp}
+}
+
+// VerifParseHost runs the host parser on a fresh URL record; it also returns the recorded validation errors.
+func VerifParseHost(p Parser, input string, isNotSpecial bool) (string, error, []error) {
+	pp := verifParser(p)
+	u := verifUrl(pp, input)
+	h, err := pp.parseHost(u, pp, input, isNotSpecial)
+	return h, err, u.validationErrors
+}
+
+func VerifEndsInANumber(p Parser, input string) (bool, []error) {
+	pp := verifParser(p)
+	u := verifUrl(pp, input)
+	r := pp.endsInANumber(u, input)
+	return r, u.validationErrors
+}
+
+func VerifParseIPv4Number(p Parser, input string) (int64, bool, error) {
+	pp := verifParser(p)
+	return pp.parseIPv4Number(verifUrl(pp, input), input)
+}
+
+func VerifParseIPv4(p Parser, input string) (string, error, []error) {
+	pp := verifParser(p)
+	u := verifUrl(pp, input)
+	h, err := pp.parseIPv4(u, input)
+	return h, err, u.validationErrors
+}
+
+func VerifParseIPv6(p Parser, input string) (string, error, []error) {
+	pp := verifParser(p)
+	u := verifUrl(pp, input)
+	h, err := pp.parseIPv6(u, newInputString(input))
+	return h, err, u.validationErrors
+}
+
+func VerifParseOpaqueHost(p Parser, input string) (string, error, []error) {
+	pp := verifParser(p)
+	u := verifUrl(pp, input)
+	h, err := pp.parseOpaqueHost(u, input)
+	return h, err, u.validationErrors
+}
+
+func VerifToASCII(p Parser, src string, beStrict bool) (string, error) {
+	return verifParser(p).ToASCII(src, beStrict)
+}
+
+func VerifDecodePercentEncoded(p Parser, s string) string {
+	return verifParser(p).DecodePercentEncoded(s)
+}
+
+func VerifTrim(s string, tr *PercentEncodeSet) (string, bool) { return trim(s, tr) }
+
+func VerifRemove(s string, tr *bitset.BitSet) (string, bool) { return remove(s, tr) }
+
+func VerifPercentEncodeStringBytes(s string, tr *PercentEncodeSet) string {
+	return percentEncodeString(s, tr)
+}
+
+// VerifSearchParamsOwner tells whether the search parameters handle writes through to u.
+func VerifSearchParamsOwner(s *SearchParams, u *Url) bool { return s.url == u }
+
+// VerifHasSearchParams tells whether the lazily created search parameters exist.
+func VerifHasSearchParams(u *Url) bool { return u.searchParams != nil }
